@@ -107,6 +107,8 @@ def enumerate_cases(tier, seed):
                     for lay in layouts(EPSS[en], max_layout):
                         if not quick and en == "eps_default" and len(lay) > 1:
                             continue  # thorough: the non-dyadic eps on layouts with at most one interior checkpoint (budget)
+                        if not quick and len(lay) == 3 and dt0 != 5 / 16:
+                            continue  # thorough: all 35 three-checkpoint layouts for the middle dt0 only (budget)
                         cases.append(dict(id=f"profile/save_at/{cn}/{en}/clip{int(clip)}/dt0_{dt0}/L{''.join(map(str, lay)) or '-'}",
                                           group=f"p/{cn}/{en}/{int(clip)}/{dt0}/{len(lay)}", mode="profile", entry="save_at",
                                           controller=cn, eps=en, clip=clip, dt0=dt0, layout=lay, max_pieces=max_pieces,
@@ -121,7 +123,7 @@ def enumerate_cases(tier, seed):
                                               weight=len(profiles(max_pieces))))
     # ---- answers mode: one case = one configuration, DFS inside
     bound = 2 if quick else 3
-    a_ctrl = ["I_default", "PI_default", "S_grow"] if quick else ["I_default", "I_dyadic_a", "PI_default", "PI_narrow", "S_grow", "S_shrinkgrow"]
+    a_ctrl = ["I_default", "PI_default", "S_grow"] if quick else ["I_default", "PI_default", "PI_narrow", "S_shrinkgrow"]
     a_lay = [[0, 2, 3, 5]] if quick else [[0, 2, 3, 5], [2, 4, 6], []]
     for cn in a_ctrl:
         for clip in (False, True):
